@@ -15,6 +15,10 @@ ENERGY = 0.6
 PT4 = [0.01, 0.0, 0.02, 0.0]
 PT2 = [0.05, 0.01]
 SYN = [0.8369, 0.001, 0.002, 0.0007, -1.5e-5, 0.0]
+PT4_NEAR = [0.01 + 1e-7, 0.0, 0.02, 0.0]       # neighbours of the points above: distinct inputs must not share an entry
+SYN_NEAR = [0.8369, 0.001, 0.002 + 1e-7, 0.0007, -1.5e-5, 0.0]
+ENERGY2 = 0.45
+DYN = ("dynsys", "var_dynsys", "jacobian_dynsys")
 MAPOPTS = [(1, 2e-2), (2, 2e-2), (1, 1e-2)]          # (n_iter, dt)
 SECTIONS = ["q3", "q2"]
 STRATEGIES = ["axis_aligned", "radial"]
@@ -33,9 +37,13 @@ ALPHABET = (
     + [("bad_degree",), ("save_load",), ("lp_save_load",), ("sys_save_load",)]
     + [("map_compute", s, o) for s in range(len(SECTIONS)) for o in range(len(MAPOPTS))]
     + [("map_refetch",), ("map_points", 0), ("map_points", 1), ("map_states", 0), ("map_set_strategy", 0), ("map_set_strategy", 1), ("map_save_load",)]
+    # appended later (indices of the operations above stay what they were)
+    + [("lp_read", n) for n in ("eigenvectors", "gamma", "linear_modes", "mu", "idx")]
+    + [("lp_dyn", n) for n in DYN] + [("sys_dyn", n) for n in DYN] + [("sys_read", "mu")]   # not `distance`: the twins are built from named bodies, the systems under test from mu alone
+    + [("to_synodic4_near",), ("to_synodic2_energy2", "q3"), ("to_synodic2", "p3"), ("to_cm_near",)]
 )
 WEIGHTS = {"setdeg": 1.5, "cm_ham": 1.2, "read_degree": 0.8, "compute": 1.0, "to_synodic4": 0.6, "to_synodic2": 0.5, "to_cm": 0.5, "lp_ham": 1.0,
-           "lp_get_cm": 1.0, "lp_read": 0.9, "lp_hamsys": 0.6, "lp_genfun": 0.4, "lp_hams": 0.4, "bad_degree": 0.4, "save_load": 0.2, "lp_save_load": 0.25, "sys_save_load": 0.2, "map_compute": 1.6, "map_refetch": 0.5, "map_points": 0.8, "map_states": 0.4, "map_set_strategy": 0.7, "map_save_load": 0.4}
+           "lp_get_cm": 1.0, "lp_read": 1.2, "lp_dyn": 0.4, "sys_dyn": 0.4, "sys_read": 0.2, "to_synodic4_near": 0.3, "to_synodic2_energy2": 0.3, "to_cm_near": 0.3, "lp_hamsys": 0.6, "lp_genfun": 0.4, "lp_hams": 0.4, "bad_degree": 0.4, "save_load": 0.2, "lp_save_load": 0.25, "sys_save_load": 0.2, "map_compute": 1.6, "map_refetch": 0.5, "map_points": 0.8, "map_states": 0.4, "map_set_strategy": 0.7, "map_save_load": 0.4}
 REDUCED = [("setdeg", 3), ("setdeg", 5), ("cm_ham", 5), ("cm_ham", 4), ("read_degree",), ("compute", "center_manifold_real"), ("to_synodic4",),
            ("lp_ham", 4, "physical"), ("lp_get_cm", 4), ("map_compute", 0, 0), ("map_compute", 0, 1), ("map_refetch",)]
 MUTATORS = {"setdeg", "cm_ham", "bad_degree", "save_load"}
@@ -148,6 +156,21 @@ def apply_cm(cm, lp, op):
         return {name: hsig(h) for name, h in sorted(lp.hamiltonians(op[1]).items())}
     if k == "lp_read":
         return _norm(getattr(lp, op[1]))
+    if k in ("lp_dyn", "sys_dyn"):
+        d = getattr(lp if k == "lp_dyn" else lp.system, op[1])
+        y = np.zeros(int(d.dim))
+        y[:min(6, len(y))] = [0.8, 0.01, 0.02, 0.0, 0.1, 0.0][:min(6, len(y))]
+        if len(y) == 42:
+            y[6:] = np.eye(6).ravel()
+        return {"dim": int(d.dim), "mu": float(d.mu), "rhs": np.asarray(d.rhs(0.0, y), float)}
+    if k == "sys_read":
+        return float(getattr(lp.system, op[1]))
+    if k == "to_synodic4_near":
+        return np.array(cm.to_synodic(PT4_NEAR))
+    if k == "to_synodic2_energy2":
+        return np.array(cm.to_synodic(PT2, ENERGY2, op[1]))
+    if k == "to_cm_near":
+        return np.array(cm.to_cm(SYN_NEAR))
     raise AssertionError(op)
 
 
@@ -230,7 +253,7 @@ def run_history(ctx: RunCtx, U) -> None:
             continue
         if k in ("lp_save_load", "sys_save_load"):
             # round trip of the libration point / of its system: every cheap observable of the reloaded object must equal the original's
-            names = ("position", "energy", "jacobi", "eigenvalues", "linear_data", "is_stable")
+            names = ("position", "energy", "jacobi", "eigenvalues", "linear_data", "is_stable", "gamma", "mu", "idx", "eigenvectors", "linear_modes")
             path = base.tmp_path(f"{k}_{len(hist)}_{j}.pkl")
             src = c["lp"] if k == "lp_save_load" else c["lp"].system
             out = attempt(lambda: src.save(path))
@@ -246,6 +269,8 @@ def run_history(ctx: RunCtx, U) -> None:
             lp2 = out.value if k == "lp_save_load" else attempt(lambda: out.value.get_libration_point(c["where"][1])).value
             if k == "sys_save_load" and (lp2 is None or float(out.value.mu) != float(c["lp"].system.mu)):
                 raise Violation("C20/sys_save_load/roundtrip-mu", f"reloaded system has mu {getattr(out.value, 'mu', None)!r}, saved with {c['lp'].system.mu!r} | history: {hist}")
+            if k == "sys_save_load" and float(out.value.distance) != float(c["lp"].system.distance):
+                raise Violation("C20/sys_save_load/roundtrip-distance", f"reloaded system has distance {out.value.distance!r}, saved with {c['lp'].system.distance!r} | history: {hist}")
             for nm in names:
                 a, b = attempt(lambda: _norm(getattr(c["lp"], nm))), attempt(lambda: _norm(getattr(lp2, nm)))
                 if a.failed != b.failed or (not a.failed and not eq(a.value, b.value)):
